@@ -85,6 +85,13 @@ def add_define_items(rng, items):
     items = list(items)
     items.insert(0, ["define", "lay1", "vv"])
     items.insert(1, ["define", "Lay2", "$lay1-w"])
+    r = rng.random()
+    if r < 0.25:
+        # a name defined again: with the same expanded value (accepted) ...
+        items.insert(2, ["define", rng.choice(["lay1", "LAY1", "Lay1"]), "vv"])
+    elif r < 0.5:
+        # ... or with another one (rejected), the name spelled in any letter case
+        items.insert(2, ["define", rng.choice(["lay1", "LAY1", "lay2", "LAY2"]), rng.choice(["other", "", "vv-w "])])
     for it in items:
         if it[0] == "kv" and rng.random() < 0.3 and it[2] and "$" not in it[2]:
             it[2] = it[2] + rng.choice(["$lay1", "${LAY2}", "$Lay2", "${lay1}"])
